@@ -405,9 +405,35 @@ func (l scriptLoader) single(kind string, key int, old int) (int, error) {
 	case "err":
 		return v, errLoader
 	case "nf":
-		return v, otter.ErrNotFound
+		return v, notFoundErr(v)
 	default:
 		panic("loader-panic")
+	}
+}
+
+// isNotFoundErr is an error type that answers errors.Is(err, otter.ErrNotFound) through its own Is method
+type isNotFoundErr struct{}
+
+func (isNotFoundErr) Error() string        { return "record is gone" }
+func (isNotFoundErr) Is(target error) bool { return target == otter.ErrNotFound }
+
+// notFoundErr: the ways a loader can say "not found" (everything errors.Is(err, otter.ErrNotFound) accepts): the sentinel itself,
+// wrapped once, wrapped together with another error (two %w verbs, errors.Join), or a type with an Is method.  The choice is a
+// function of the script's value so that a replay makes the same one.
+func notFoundErr(v int) error {
+	switch v % 6 {
+	case 1:
+		return fmt.Errorf("loading: %w", otter.ErrNotFound)
+	case 2:
+		return fmt.Errorf("%w (%w)", errors.New("backend said no"), otter.ErrNotFound)
+	case 3:
+		return errors.Join(errors.New("backend said no"), otter.ErrNotFound)
+	case 4:
+		return isNotFoundErr{}
+	case 5:
+		return fmt.Errorf("outer: %w", errors.Join(otter.ErrNotFound))
+	default:
+		return otter.ErrNotFound
 	}
 }
 
